@@ -477,6 +477,37 @@ func (r *Report) Finish() int {
 		sv, sweepCov = r.runLockCheck(r.AllowFile)
 		violations += sv
 	}
+	// bounded stand-ins: real code executed on every case up to a stated bound; never "proved"
+	if r.BoundedFiles != "" {
+		var bs []any
+		for _, f := range strings.Split(r.BoundedFiles, ",") {
+			t0 := time.Now()
+			failed, out := runReplayFile(r.L, f)
+			rec := map[string]any{"file": f, "label": "bounded (not a proof)", "wall_s": round2(time.Since(t0).Seconds())}
+			ran := false
+			for _, line := range strings.Split(out, "\n") {
+				if strings.HasPrefix(line, "BOUNDED ") {
+					ran = true
+					var c, n, b int
+					fmt.Sscanf(line, "BOUNDED cases=%d nontrivial=%d bound=%d", &c, &n, &b)
+					rec["cases"], rec["nontrivial"], rec["bound"] = c, n, b
+					fmt.Printf("bounded check %s: cases=%d nontrivial=%d bound=%d failed=%v\n", filepath.Base(f), c, n, b, failed)
+				}
+			}
+			if failed || !ran {
+				violations++
+				dir := filepath.Join(r.ReplayDir, r.Prop)
+				os.MkdirAll(dir, 0o755)
+				path := filepath.Join(dir, fmt.Sprintf("bounded_%x.txt", hashStr(f+out)))
+				os.WriteFile(path, []byte("bounded check "+f+" failed on the real code; run it with: ./check replay "+f+"\n\n"+truncate(out, 20000)), 0o644)
+				fmt.Printf("VIOLATION property=%s replay=%s (bounded check: the failing case is named in the output; %s is the executable input)\n", r.Prop, f, path)
+				rec["failed"] = true
+				rec["output"] = truncate(out, 2000)
+			}
+			bs = append(bs, rec)
+		}
+		r.Bounded = bs
+	}
 	for _, l := range vioLines {
 		fmt.Println(l)
 	}
@@ -545,6 +576,26 @@ func (r *Report) Finish() int {
 				"bounded":                  r.Bounded,
 				"explanation":              r.Explanation,
 			}}
+		if bl, ok := r.Bounded.([]any); ok && len(bl) > 0 {
+			ev := &ev
+			total, nontriv := 0, 0
+			var bsamples []any
+			for _, b := range bl {
+				m := b.(map[string]any)
+				if c, ok := m["cases"].(int); ok {
+					total += c
+				}
+				if c, ok := m["nontrivial"].(int); ok {
+					nontriv += c
+				}
+				bsamples = append(bsamples, m)
+			}
+			ev.Coverage["evaluations"] = total
+			ev.Coverage["distinct_nontrivial"] = nontriv
+			ev.Coverage["exhaustive"] = true
+			ev.Coverage["rule"] = "BOUNDED stand-in, not a proof: the real data-plane functions are executed on every case up to the stated bound (all start/len/capacity combinations, listed item types, enumerated histories) and compared byte for byte with the contract the deductive part trusts; a case is non-trivial when it moves or clears at least one byte; nothing is claimed beyond the bound"
+			ev.Coverage["samples"] = append(bsamples, samples...)
+		}
 		for k, v := range sweepCov {
 			if k == "samples" {
 				ev.Coverage["samples"] = append(v.([]any), samples...)
@@ -779,7 +830,7 @@ func runReplayFile(L *Loaded, file string) (bool, string) {
 	if strings.Contains(string(data), "//verif:race") {
 		race, limit = "-race ", "" // the race detector reserves a large virtual address range
 	}
-	cmd := exec.Command("bash", "-c", fmt.Sprintf("%scd %s && go test %s-overlay %s -vet=off -count=1 -timeout 300s -run '^%s$' ./ecs", limit, L.Repo, race, ovFile, name))
+	cmd := exec.Command("bash", "-c", fmt.Sprintf("%scd %s && go test -v %s-overlay %s -vet=off -count=1 -timeout 300s -run '^%s$' ./ecs", limit, L.Repo, race, ovFile, name))
 	cmd.Env = replayEnv()
 	out, err := cmd.CombinedOutput()
 	s := string(out)
